@@ -124,6 +124,14 @@ func genC17(seed uint64, tier string) any {
 	if sc.TreeSize > 0 && r.Chance(1, 4) {
 		sc.MaxIndex = r.Range(sc.Start+1, sc.TreeSize)
 	}
+	if r.Chance(1, 12) {
+		// a resume cursor at or beyond the end of the range: nothing to scan, the cursor must come back unchanged
+		sc.Start = sc.TreeSize + r.Intn(4)
+		if sc.TreeSize > 2 && r.Bool() {
+			sc.MaxIndex = 1 + r.Intn(sc.TreeSize-1)
+			sc.Start = sc.MaxIndex + r.Intn(3)
+		}
+	}
 	sc.Batch = []int{1, 2, 3, 7, 10, 32, 100}[r.Intn(7)]
 	sc.Fetchers = r.Range(1, 4)
 	sc.Workers = r.Range(1, 4)
@@ -436,6 +444,8 @@ func execC17(t *testing.T, scAny any, keepLog bool) *Outcome {
 		o.Fail = Failf("c17.termination", "Scan did not terminate after the faults stopped", "bubble ended with: %.300s", leak)
 	case scanErr != nil:
 		o.Fail = Failf("c17.error", "Scan returned an error", "%v", scanErr)
+	case stop <= sc.Start && (ret != int64(sc.Start) || sc.Rescan && ret2 != int64(sc.Start)):
+		o.Fail = Failf("c17.return", "Scan did not return start index + entries processed", "start %d at or beyond the range end %d: returned %d (nothing was processed, so the start index is expected)", sc.Start, stop, ret)
 	case ret != int64(stop) && stop > sc.Start:
 		o.Fail = Failf("c17.return", "Scan did not return start index + entries processed", "returned %d, start %d, range end %d", ret, sc.Start, stop)
 	case sc.Rescan && ret2 != int64(stop) && stop > sc.Start:
